@@ -348,8 +348,23 @@ func (r *runner) run() {
 	e := r.e
 	e.srv.Do("FLUSHALL")
 	e.srv.Do("SET", "ks", "abc")
-	viaFn := r.c.API == "fn"
+	viaFn := r.c.API == "fn" || r.c.API == "ofn"
 	exec := func(mk func() rueidiscompat.Pipeliner, pipelined func(context.Context, func(rueidiscompat.Pipeliner) error) ([]rueidiscompat.Cmder, error)) {
+		if r.c.API == "oexec" || r.c.API == "ofn" {
+			// the secondary entry points of an explicit pipeline object: the object keeps its kind
+			obj, tx := mk(), r.c.Kind != "pipe"
+			mk = func() rueidiscompat.Pipeliner {
+				if tx {
+					return obj.TxPipeline()
+				}
+				return obj.Pipeline()
+			}
+			if tx {
+				pipelined = obj.TxPipelined
+			} else {
+				pipelined = obj.Pipelined
+			}
+		}
 		if !viaFn {
 			r.body(mk(), false)
 			return
